@@ -2,6 +2,7 @@
 #define PHOTOSPLINE_FITSIO_H
 
 #include <string.h>
+#include <cmath>
 
 namespace photospline{
 	
@@ -394,6 +395,26 @@ bool splinetable<Alloc>::read_fits_core(fitsfile* fits, const std::string& fileP
 	
 	if(error!=0)
 		throw std::runtime_error("Error reading "+filePath+": Error "+std::to_string(error));
+	
+	//Check that the pieces fit together; evaluation relies on these relations
+	//to stay within the arrays.
+	for (unsigned i = 0; i < ndim; i++) {
+		if (nknots[i] < 2*(uint64_t)order[i]+2)
+			throw std::runtime_error("Too few knots ("+std::to_string(nknots[i])
+			                         +") for spline order "+std::to_string(order[i])
+			                         +" in dimension "+std::to_string(i));
+		if (naxes[i] != nknots[i]-order[i]-1)
+			throw std::runtime_error("Number of coefficients ("+std::to_string(naxes[i])
+			                         +") does not match number of knots ("
+			                         +std::to_string(nknots[i])+") and spline order ("
+			                         +std::to_string(order[i])+") in dimension "+std::to_string(i));
+		for (uint64_t j = 0; j < nknots[i]; j++) {
+			if (!std::isfinite(knots[i][j]))
+				throw std::runtime_error("Non-finite knot in dimension "+std::to_string(i));
+			if (j > 0 && knots[i][j] < knots[i][j-1])
+				throw std::runtime_error("Knots are not in ascending order in dimension "+std::to_string(i));
+		}
+	}
 	
 	return (error==0);
 }
